@@ -1,10 +1,5 @@
-import LalModel.Model.Bytes
-import LalModel.Model.Hex
-import LalModel.Model.Flv
-import LalModel.Model.Ws
-import LalModel.Spec.FlvSpec
-import LalModel.Spec.WsSpec
-import LalModel.Generated.Consts
+import Driver.Common
+import Driver.C11
 /-
   Line-protocol driver (DESIGN.md §4.1). For each line
       <component> <args...> => <implementation output>
@@ -15,84 +10,17 @@ import LalModel.Generated.Consts
   correspondence) and the verdict is the property's own oracle — the
   specification-side reader applied to the *implementation's* output
   (`ok`, `na` when the op is outside the property's guard, `bad:<why>`).
+  One handler per property file `Driver/Cxx.lean`; the first that knows the
+  component answers.
 -/
-open Lal
+open Lal Drv
 
-def nat! (s : String) : Nat := s.toNat?.getD 0
-def hex! (s : String) : Bytes := (Hex.toBytes s).getD []
+def handlers : List Handler := [Drv.C11.handleC11]
 
-def splitOnChar (s : String) (c : Char) : List String := s.splitOn (String.singleton c)
-
-structure Ans where
-  model : String
-  verdict : String := "na"
-
-def tagsArg (s : String) : List (UInt8 × Nat × Bytes) :=
-  if s == "-" then [] else
-  (splitOnChar s ',').map fun t =>
-    match splitOnChar t ':' with
-    | [a, b, c] => (UInt8.ofNat (nat! a), nat! b, hex! c)
-    | _ => (0, 0, [])
-
-def showTags (ts : List (UInt8 × Nat × Bytes)) : String :=
-  String.join (ts.map fun (t, ts, p) => s!" {t.toNat}:{ts}:{Hex.ofBytes p}")
-
-def handle (comp : String) (a : List String) (impl : String) : Ans :=
-  match comp, a with
-  | "flv.pack", [t, ts, p] =>
-    let t8 := UInt8.ofNat (nat! t); let tsn := nat! ts; let pb := hex! p
-    let m := Flv.packTag t8 tsn pb
-    let ib := hex! impl
-    let v :=
-      if t8.toNat ≥ 32 then "na" else
-      match FlvSpec.readTag ib, Flv.readTag ib with
-      | some (tag, []), some (h, raw, []) =>
-        if tag.typ == t8 && tag.ts == tsn && tag.payload == pb && h.typ == t8 && h.ts == tsn
-           && h.dataSize == pb.length && raw == ib && Flv.payloadOfRaw raw == pb
-        then "ok" else "bad:decoded-differs"
-      | none, _ => "bad:spec-reader-rejects"
-      | _, none => "bad:lal-reader-rejects"
-      | _, _ => "bad:trailing-bytes"
-    { model := Hex.ofBytes m, verdict := v }
-  | "flv.read", [b] =>
-    let bb := hex! b
-    match Flv.readTag bb with
-    | none => { model := "err" }
-    | some (h, raw, rest) => { model := s!"ok {h.typ.toNat} {h.dataSize} {h.ts} {raw.length} {rest.length}" }
-  | "flv.file", [ts] =>
-    let tags := tagsArg ts
-    let file := Gen.flvHeader ++ tags.flatMap fun (t, ts, p) => Flv.packTag t ts p
-    let back := match Flv.readFile file with
-      | none => " hdr-err"
-      | some l => showTags (l.map fun (h, raw) => (h.typ, h.ts, Flv.payloadOfRaw raw))
-    -- oracle: the implementation's file, read by the specification reader, is exactly the tags written
-    let implFile := hex! ((impl.splitOn " ;").headD "")
-    let v := match FlvSpec.readFile implFile with
-      | none => "bad:spec-reader-rejects-file"
-      | some f =>
-        if f.tags.map (fun t => (t.typ, t.ts, t.payload)) == tags then "ok" else "bad:file-tags-differ"
-    let guard := tags.all fun (t, ts, p) => t.toNat < 32 && ts < 4294967296 && p.length < 16777216
-    { model := Hex.ofBytes file ++ " ;" ++ back, verdict := if guard then v else "na" }
-  | "ws.hdr", [fin, r1, r2, r3, op, len, mk, key] =>
-    let h : Ws.Header :=
-      { fin := fin == "1", rsv1 := r1 == "1", rsv2 := r2 == "1", rsv3 := r3 == "1",
-        opcode := nat! op, payloadLength := nat! len, masked := mk == "1", maskKey := nat! key }
-    { model := Hex.ofBytes (Ws.makeFrameHeader h) }
-  | "ws.sub", [isWs, units] =>
-    let us := (splitOnChar units ',').map hex!
-    let items := us.flatMap (Ws.subWrite (isWs == "1"))
-    let implItems := (splitOnChar impl ',').map hex!
-    let stream := implItems.flatten
-    let v :=
-      if isWs == "1" then
-        match WsSpec.readFrames stream.length stream with
-        | none => "bad:rfc6455-reader-rejects"
-        | some fs =>
-          if fs.all (fun f => f.fin && f.opcode == 2) && fs.map (·.payload) == us then "ok"
-          else "bad:frames-differ"
-      else if stream == us.flatten then "ok" else "bad:bytes-differ"
-    { model := String.intercalate "," (items.map Hex.ofBytes), verdict := v }
-  | _, _ => { model := "bad-op" }
+def dispatch (comp : String) (args : List String) (impl : String) : Ans :=
+  match handlers.findSome? (fun h => h comp args impl) with
+  | some a => a
+  | none => { model := "bad-op" }
 
 partial def loop (h : IO.FS.Stream) (out : IO.FS.Stream) : IO Unit := do
   let line ← h.getLine
@@ -104,7 +32,7 @@ partial def loop (h : IO.FS.Stream) (out : IO.FS.Stream) : IO Unit := do
     | o :: rest => (o, String.intercalate " => " rest)
     | [] => ("", "")
   let ans := match op.splitOn " " with
-    | comp :: args => handle comp args impl
+    | comp :: args => dispatch comp args impl
     | [] => { model := "bad-op" }
   out.putStrLn (ans.model ++ " | " ++ ans.verdict)
   loop h out
